@@ -260,7 +260,14 @@ class Engine(  # pylint:disable=too-few-public-methods
             else:
                 # let pandas transform any acceptable value
                 # into a numpy or pandas dtype.
-                np_or_pd_dtype = pd.api.types.pandas_dtype(data_type)
+                try:
+                    np_or_pd_dtype = pd.api.types.pandas_dtype(data_type)
+                except ValueError as exc:
+                    # numpy >= 2 raises ValueError, not TypeError, for an
+                    # object with a ``dtype`` attribute that is not a dtype
+                    raise TypeError(
+                        f"data type '{data_type}' not understood"
+                    ) from exc
                 if is_pyarrow_dtype(np_or_pd_dtype):
                     # e.g.: "timestamp[ns][pyarrow]"
                     np_or_pd_dtype = np_or_pd_dtype.pyarrow_dtype
